@@ -736,6 +736,32 @@ class Effects:
                 return True
         return False
 
+    def _reaching_label(self, f, at, name_node, env, joined):
+        from .flow import Flow
+        fl = self._flows.get(f.qname) if hasattr(self, "_flows") else None
+        if not hasattr(self, "_flows"):
+            self._flows = {}
+        if fl is None:
+            try:
+                fl = self._flows[f.qname] = Flow(f.node)
+            except Exception:
+                return joined
+        try:
+            ds = fl.reaching(at, name_node.id)
+        except Exception:
+            return joined
+        if not ds:
+            return joined
+        best = FRESH
+        for d in ds:
+            if d.kind == "assign" and d.value is not None and isinstance(getattr(d, "target", None), (ast.Name, type(None))):
+                l = self.L(f, d.value, env)
+            else:
+                return joined           # loop targets, unpacking, parameters, augmented assignments: keep the join
+            if l.d < best.d:
+                best = l
+        return best
+
     def _sinks(self, f, env, params, watch_param):
         """In-place mutations of depth-0 values. Returns (sinks, description of a mutation of the
         watched parameter or None)."""
@@ -746,6 +772,10 @@ class Effects:
             """level_of: callee summary lookup {k: description} - the callee mutates what lies k levels below its argument."""
             nonlocal mut_param
             lab = self.L(f, obj_expr, env)
+            if lab.d == 0 and isinstance(obj_expr, ast.Name) and obj_expr.id not in params:
+                # the environment joins ALL definitions of a local; what is mutated here is only what the definitions
+                # REACHING this statement bind (`x = []; ...; x.append(v); ...; x = model_row` appends to the fresh list)
+                lab = self._reaching_label(f, node, obj_expr, env, lab)
             if level_of is not None:
                 if lab.d not in level_of:
                     return
